@@ -114,6 +114,14 @@ Theorem C22_lwwset_replicas_converge :
   = merge_all lwwset_sl (lwwset_build a) (map lwwset_build l2).
 Proof. exact lwwset_replicas_converge. Qed.
 
+(* and for the crate's LWWMap with Max values, built by any insert/remove sequences *)
+Theorem C22_lwwmap_replicas_converge :
+  forall (a : list mop) (l1 l2 : list (list mop)),
+  (forall x, In x l1 <-> In x l2) ->
+  merge_all (lwwmap_sl max_sl) (lwwmap_build a) (map lwwmap_build l1)
+  = merge_all (lwwmap_sl max_sl) (lwwmap_build a) (map lwwmap_build l2).
+Proof. exact lwwmap_replicas_converge. Qed.
+
 (* non-vacuity of the convergence theorems: three LWWSet replicas, delivered in
    different orders and with a duplicate *)
 Example C22_example_convergence :
